@@ -106,6 +106,8 @@ def check_empty(project: Project, rep):
     if ok:
         rep.discharged("AD-EMPTY", tr, tr.node, "an empty collection yields an all-zero array whose shape is the configured "
                                                 "resolution")
+    elif not isinstance(r, Arr) or I.lossy or not isinstance(res, Seq):
+        rep.unmodelled("AD-EMPTY", tr, tr.node, f"result for an empty collection not modelled: {r!r}"[:200])
     else:
         rep.refuted("AD-EMPTY", tr, tr.node, f"an empty diagram does not yield zeros(resolution): {r!r}"[:200],
                     construct=f"{tr.qualname}: empty input")
